@@ -99,6 +99,21 @@ class MergeCoAuthors(_NameTransformerMiddleware):
         return name
 
 
+def _is_and(word: str) -> bool:
+    return word.lower() == "and"
+
+
+def _join_name_words(words: List[str]) -> str:
+    """Joins the words of one name with blanks. A bare word `and` inside the name is tied to
+    the word before it with `~`, as otherwise it would read as a separator of co-authors."""
+    joined = ""
+    for word in words:
+        if joined:
+            joined += "~" if _is_and(word) else " "
+        joined += word
+    return joined
+
+
 @dataclasses.dataclass
 class NameParts:
     """A dataclass representing the parts of a person name.
@@ -114,18 +129,7 @@ class NameParts:
     @property
     def merge_first_name_first(self) -> str:
         """Merging the name parts into a single string, first-name-first (no comma) format."""
-        return " ".join(
-            [
-                part
-                for part in (
-                    " ".join(self.first) if self.first else None,
-                    " ".join(self.von) if self.von else None,
-                    " ".join(self.last) if self.last else None,
-                    " ".join(self.jr) if self.jr else None,
-                )
-                if part is not None
-            ]
-        )
+        return _join_name_words(self.first + self.von + self.last + self.jr)
 
     @property
     def merge_last_name_first(self) -> str:
@@ -146,13 +150,15 @@ class NameParts:
                 # Odd number: need to escape one.
                 return string + "\\"
 
-        first = " ".join(self.first) if self.first else None
-        von = " ".join(self.von) if self.von else None
-        last = " ".join(self.last) if self.last else None
-        jr = " ".join(self.jr) if self.jr else None
-
-        von_last = " ".join(name for name in [von, last] if name)
-        return ", ".join(escape_last_slash(name) for name in [von_last, jr, first] if name)
+        merged = ""
+        for words in (self.von + self.last, self.jr, self.first):
+            if not words:
+                continue
+            if merged:
+                # Also the first word of a later section must not read as a separator.
+                merged += ",~" if _is_and(words[0]) else ", "
+            merged += escape_last_slash(_join_name_words(words))
+        return merged
 
 
 class SplitNameParts(_NameTransformerMiddleware):
